@@ -2,7 +2,7 @@ import verif
 
 MANIFEST = dict(
     text="Machine-checked Coq theorems over ALL operation sequences (induction with a simulation invariant between the map-based Impl model of eth2/pool/*.go and a list-of-added-items Spec): "
-         "no add/search/prune/reset/select ever panics; exits, proposer and attester slashings: second item under the same key refused, All() = exactly the accepted items; "
+         "no add/search/prune/reset/select ever panics (also proved for arbitrary byte strings, committees, buffer indices and slots); exits, proposer and attester slashings: second item under the same key refused, All() = exactly the accepted items; "
          "attestations: AttestationBits helpers (BitLen, GetBit, OnesCount, Covers, Or, SingleParticipant over bytes) = operations on the decoded flag list, "
          "single attestation duplicate absorbed / double vote reported, aggregate covered by the stored ones absorbed (exact duplicates included), aggregate whose participants all voted for other data refused, "
          "Search returns exactly the stored aggregates matching the filter, unaltered, until Prune(epoch) removes exactly those with target epoch < epoch-1; "
@@ -17,7 +17,57 @@ MANIFEST = dict(
 
 # No `known` findings: every defect found has a small repair under fixes/C20-*.diff (documented as `fixed` entries in
 # fixes/known_findings_C20.json).  A mismatch that is not explained by a committed fix is a VIOLATION.
-KNOWN_MATCH = {}
+#
+# The two predicates below are consulted by the driver ONLY if known_findings.json lists their shape with status "known"
+# (i.e. if the coordinator declines the corresponding patch and records the defect instead); with `fixed` entries they are inert.
+M64 = 1 << 64
+
+
+def _bitlen(bits):
+    if not bits:
+        return 0
+    last = bits[-1]
+    return (len(bits) - 1) * 8 + (last.bit_length() - 1 if last else 0)
+
+
+def _ones(bits):
+    if not bits:
+        return 0
+    n = sum(bin(b).count("1") for b in bits[:-1])
+    last = bits[-1]
+    return n + (bin(last).count("1") - 1 if last else 0)
+
+
+def reset_by_two_slots(case, code):
+    """sync pool sequence containing a Reset to currentSlot +-2 (mod 2^64)"""
+    if not case or case.get("pool") != "sync_committee":
+        return False
+    cur = M64 - 1
+    for op in case.get("ops", []):
+        if op.get("op") == "reset":
+            slot = int(op.get("slot", 0))
+            if (slot - cur) % M64 in (2, M64 - 2):
+                return True
+            cur = slot
+    return False
+
+
+def aggregate_with_committee_of_other_size(case, code):
+    """attestation sequence containing an aggregate (>= 2 bits set) whose bit length differs from the committee size"""
+    if not case or case.get("pool") != "attestations":
+        return False
+    for op in case.get("ops", []):
+        if op.get("op") == "add" and op.get("att"):
+            bits = op["att"].get("Bits") or []
+            if _ones(bits) >= 2 and _bitlen(bits) != len(op.get("committee") or []):
+                return True
+    return False
+
+
+KNOWN_MATCH = {
+    "reset_by_two_slots": reset_by_two_slots,
+    "aggregate_with_committee_of_other_size": aggregate_with_committee_of_other_size,
+}
 
 
 def make_check():
@@ -31,7 +81,8 @@ def make_check():
             "Go map iteration order is abstracted: Search/All results and hook dumps are compared as multisets",
             "add-only hook /repo/eth2/pool/verif_hooks.go (build tag verif): read-only views of individual, aggPerValidator, aggregate, datas and of the sync pool's slot buffers",
         ],
-        model_files=["coq/Pool/PoolModel.v", "coq/Pool/PoolSpec.v", "coq/Pool/PoolProofs.v", "coq/Pool/PoolRun.v", "coq/Properties/C20.v"],
+        model_files=["coq/Pool/PoolModel.v", "coq/Pool/PoolSpec.v", "coq/Pool/PoolMaps.v", "coq/Pool/PoolBits.v", "coq/Pool/PoolAtt.v", "coq/Pool/PoolSync.v",
+                     "coq/Pool/PoolSafe.v", "coq/Pool/PoolProofs.v", "coq/Pool/PoolRun.v", "coq/Properties/C20.v"],
         known_match=KNOWN_MATCH,
         notes="Spec comparison is vacuous for sequences containing a bit list that is not a valid SSZ bit list (empty, trailing zero byte); the Impl comparison still applies to them. "
               "Cross-structure double votes (single vs aggregate) and partially conflicting aggregates are accepted by design of the pool and are outside the conflict clause as formalised (design/C20.md).",
